@@ -91,10 +91,29 @@ func (r *Report) collect(results []*JobResult, groups map[string]*group, order [
 	}
 }
 
-func noWitness(g *group) bool {
+// noWitness reports whether path-witness validation is switched off for a harness function: a file's
+// "//verif:nowitness" line (optionally followed by function names) covers the functions that file defines.
+// It is meant for harnesses whose event order depends on real goroutine scheduling or real time natively.
+func noWitness(g *group, harness string) bool {
 	for _, f := range g.files {
-		if strings.Contains(string(f.Src), "//verif:nowitness") {
-			return true
+		src := string(f.Src)
+		if !strings.Contains(src, "func "+harness+"(") {
+			continue
+		}
+		for _, line := range strings.Split(src, "\n") {
+			fs := strings.Fields(line)
+			if len(fs) == 0 || fs[0] != "//verif:nowitness" {
+				continue
+			}
+			names := fs[1:]
+			if len(names) == 0 {
+				return true
+			}
+			for _, n := range names {
+				if n == harness {
+					return true
+				}
+			}
 		}
 	}
 	return false
@@ -121,8 +140,10 @@ func (r *Report) native(groups map[string]*group, order []string, opt Options) {
 			}
 		}
 		nv := len(cases)
-		if !noWitness(g) {
-			cases = append(cases, r.witness[d]...)
+		for _, w := range r.witness[d] {
+			if !noWitness(g, w.Harness) {
+				cases = append(cases, w)
+			}
 		}
 		if len(cases) == 0 {
 			continue
